@@ -338,7 +338,7 @@ func TestFloatCodec(t *testing.T) {
 }
 
 func TestFloatCodecRandom(t *testing.T) {
-	harness.Rapid(t, harness.N(50000, 16*100000), func(t *rapid.T) {
+	harness.Rapid(t, harness.N(50000, 16*400000), func(t *rapid.T) {
 		f := gen.Float32Any(t, "f")
 		c := FloatCase{Bits: math.Float32bits(f), F: ops.F32(f).String()}
 		subFloat.See(c, nontrivialFloat(c.Bits), uint64(c.Bits))
@@ -776,7 +776,7 @@ func checkNRegForms(b []byte, p *spec.Parsed, vals []float32) error {
 var subPublic = harness.Define("public-paths", "batches of values through SetLOD, SetNReg, low/high-resolution path coordinates, arc radius/rotation/flags: widths read back from the bytes must be the shortest exact ones (naturals, reals, coordinates), SetNReg picks the shortest of its three forms with real < coordinate < zero-to-one on ties, decoded values obey the exact/4-ulp/nearest-1/64 rules; non-trivial = batch contains a value that is not a small integer", checkPublic)
 
 func TestPublicPaths(t *testing.T) {
-	harness.Rapid(t, harness.N(4000, 16*8000), func(t *rapid.T) {
+	harness.Rapid(t, harness.N(4000, 16*32000), func(t *rapid.T) {
 		n := rapid.IntRange(1, 40).Draw(t, "n")
 		c := PublicCase{HiRes: rapid.Bool().Draw(t, "hires")}
 		nt := false
@@ -869,7 +869,7 @@ func TestMetadataNumbers(t *testing.T) {
 		subMeta.See(c, true, harness.HashJSON(c), fmt.Sprintf("palette-chunk-length-%s", map[bool]string{true: ">=128", false: "<128"}[2+4*n >= 128]))
 		subMeta.Run(t, c)
 	}
-	harness.Rapid(t, harness.N(8000, 16*20000), func(t *rapid.T) {
+	harness.Rapid(t, harness.N(8000, 16*80000), func(t *rapid.T) {
 		var v [4]float32
 		for {
 			for i := range v {
